@@ -98,8 +98,16 @@ def _helper_read_crd(lit: LineIterator) -> tuple:
     atmasses = []
     for i in range(natom):
         line = next(lit)
-        # The coordinates are fixed-width fields (3F10.5, columns 21-50), which touch for wide values.
-        words = [*line[:20].split(), line[20:30], line[30:40], line[40:50], *line[50:].split()]
+        # The coordinates (3F10.5, columns 21-50) and the weighting (F10.5, columns 61-70) are
+        # fixed-width fields, which touch their left neighbours for wide values.
+        words = [
+            *line[:20].split(),
+            line[20:30],
+            line[30:40],
+            line[40:50],
+            *line[50:60].split(),
+            line[60:70],
+        ]
         resnums.append(int(words[1]))
         resnames.append(words[2])
         attypes.append(words[3])
